@@ -8,6 +8,8 @@ import (
 	"github.com/go-kid/strconv2"
 	"github.com/go-kid/strings2"
 	"github.com/pkg/errors"
+	"reflect"
+	"strconv"
 )
 
 type valueAwarePostProcessors struct {
@@ -56,9 +58,19 @@ func (c *valueAwarePostProcessors) PostProcessProperties(properties []*component
 			}
 			continue
 		}
-		parseVal, err := strconv2.ParseAny(prop.TagVal)
-		if err != nil {
-			return nil, errors.WithMessagef(err, "parse value on '%s' failed", prop)
+		var parseVal any
+		var err error
+		if isStringField(prop.Type) {
+			//a string field takes the text as written: parsing it first would turn "1.10" into "1.1", "007" into "7", "TRUE" into "1"
+			parseVal = prop.TagVal
+		} else if n, ok := parseIntegerField(prop.Type, prop.TagVal); ok {
+			//an integer field takes an integer text exactly: going through float64 loses precision above 2^53
+			parseVal = n
+		} else {
+			parseVal, err = strconv2.ParseAny(prop.TagVal)
+			if err != nil {
+				return nil, errors.WithMessagef(err, "parse value on '%s' failed", prop)
+			}
 		}
 		err = prop.Unmarshall(parseVal)
 		//err := reflectx.SetAnyValueFromString(prop.Type, prop.Value, prop.TagVal, c.hm)
@@ -67,4 +79,28 @@ func (c *valueAwarePostProcessors) PostProcessProperties(properties []*component
 		}
 	}
 	return nil, nil
+}
+
+func isStringField(p reflect.Type) bool {
+	if p.Kind() == reflect.Pointer {
+		p = p.Elem()
+	}
+	return p.Kind() == reflect.String
+}
+
+func parseIntegerField(p reflect.Type, text string) (any, bool) {
+	if p.Kind() == reflect.Pointer {
+		p = p.Elem()
+	}
+	switch p.Kind() {
+	case reflect.Int, reflect.Int8, reflect.Int16, reflect.Int32, reflect.Int64:
+		if n, err := strconv.ParseInt(text, 10, 64); err == nil {
+			return n, true
+		}
+	case reflect.Uint, reflect.Uint8, reflect.Uint16, reflect.Uint32, reflect.Uint64:
+		if n, err := strconv.ParseUint(text, 10, 64); err == nil {
+			return n, true
+		}
+	}
+	return nil, false
 }
